@@ -18,6 +18,15 @@
 //!            every numeric field x three sets of limits; no panic, documented limits enforced
 //!   tt       tensor-train presets within their documented relative error on inputs whose TT-rank is
 //!            below max_rank (rank-capped results are inconclusive)
+//!   ttspec   the same presets and bound on the inputs that make the SVD inside tt_decompose work: dense
+//!            vectors (uniform / gaussian) of the lengths whose preset shape cannot reach the rank cap
+//!            (every unfolding is full-rank with clustered singular values), vectors with a prescribed
+//!            spectrum at one unfolding and random orthonormal factors built in f64 (geometric, a close
+//!            leading pair, evenly spaced 0.1-10 % apart, two clusters) and degenerate spectra (1-4
+//!            spikes, +-1 vectors, exactly equal singular values or equal up to 1e-7..1e-3); same oracle
+//!            (Err / panic / length / relative L2 error within the documented bound unless the returned
+//!            ranks reach max_rank); the f64 spectrum of every judged input's unfoldings is measured and
+//!            counted as evidence (how many judged inputs had leading singular values within 10 % / 0.01 %)
 //!
 //! Garbage parts (child processes, so that aborts / allocation failures are classified, not fatal):
 //!   g-ids g-rle g-sparse g-snapfmt g-frame g-comp g-walstore g-walraft g-waltx g-snapfile
@@ -1793,6 +1802,332 @@ fn part_tt(case_seed: u64, r: &mut Report) {
     r.eval(hash_str(&bits32(&v[..v.len().min(64)])) ^ hash_str(scale_class), true);
     if r.want_sample() {
         r.sample(json!({"part": "tt", "dim": dim, "preset": preset, "input_tt_rank": true_rank, "scale": jscale, "returned_ranks": ranks, "relative_l2_error": rel, "magnitude_class": if pow2.is_some() { scale_class } else { "-" }, "relative_l2_error_at_magnitude": mag_rel}));
+    }
+}
+
+// ------------------------------------------------------------------------------------------------
+// part: ttspec — tensor-train presets on inputs whose unfoldings have full, clustered or
+// degenerate spectra: the inputs on which the SVD inside tt_decompose has to separate close
+// singular values (part `tt` above only feeds TT-rank <= 4 products of random cores and smooth
+// signals, whose unfoldings are low-rank with well separated spectra)
+// ------------------------------------------------------------------------------------------------
+
+/// lengths whose preset shape keeps every possible TT-rank below high_accuracy's max_rank (16):
+/// the rank cap cannot bind, so EVERY vector of these lengths is judged under that preset
+const TTSPEC_DIMS_FREE: [usize; 17] = [8, 16, 27, 32, 48, 64, 96, 100, 125, 128, 192, 216, 256, 343, 384, 512, 768];
+/// further lengths for inputs whose rank is prescribed (dense vectors of these lengths are rank-capped)
+const TTSPEC_DIMS_RANKED: [usize; 2] = [320, 729];
+/// further lengths for k-spike vectors (TT-rank <= k <= 4, never capped)
+const TTSPEC_DIMS_SPIKES: [usize; 4] = [1000, 1024, 1536, 2048];
+
+fn g_gauss(rng: &mut Rng) -> f64 {
+    let u1 = rng.unit_f64().max(1e-300);
+    let u2 = rng.unit_f64();
+    (-2.0 * u1.ln()).sqrt() * (2.0 * std::f64::consts::PI * u2).cos()
+}
+
+/// `cols` orthonormal vectors of length `rows` (cols <= rows), gaussian directions, Gram-Schmidt
+/// with re-orthogonalisation, in f64
+fn orthonormal_set(rng: &mut Rng, rows: usize, cols: usize) -> Vec<Vec<f64>> {
+    let mut out: Vec<Vec<f64>> = Vec::with_capacity(cols);
+    let mut attempts = 0;
+    while out.len() < cols.min(rows) && attempts < 16 * cols + 64 {
+        attempts += 1;
+        let mut v: Vec<f64> = (0..rows).map(|_| g_gauss(rng)).collect();
+        for _ in 0..2 {
+            for q in &out {
+                let d: f64 = v.iter().zip(q).map(|(a, b)| a * b).sum();
+                for (a, b) in v.iter_mut().zip(q) {
+                    *a -= d * b;
+                }
+            }
+        }
+        let n = v.iter().map(|a| a * a).sum::<f64>().sqrt();
+        if n > 1e-6 {
+            for a in v.iter_mut() {
+                *a /= n;
+            }
+            out.push(v);
+        }
+    }
+    out
+}
+
+/// x = sum_j s[j] * a_j (x) b_j with orthonormal a_j (length = product of the first `split` modes)
+/// and b_j (length = product of the rest): the unfolding of x after mode `split` has exactly the
+/// singular values `s`
+fn vector_with_spectrum(rng: &mut Rng, shape: &[usize], split: usize, s: &[f64]) -> Vec<f64> {
+    let l: usize = shape[..split].iter().product();
+    let rr: usize = shape[split..].iter().product();
+    let a = orthonormal_set(rng, l, s.len());
+    let b = orthonormal_set(rng, rr, s.len());
+    let k = s.len().min(a.len()).min(b.len());
+    let mut x = vec![0f64; l * rr];
+    for i in 0..l {
+        for j in 0..rr {
+            let mut acc = 0.0;
+            for q in 0..k {
+                acc += s[q] * a[q][i] * b[q][j];
+            }
+            x[i * rr + j] = acc;
+        }
+    }
+    x
+}
+
+/// eigenvalues of a small symmetric matrix (cyclic Jacobi, f64), descending
+fn sym_eigenvalues(mut a: Vec<Vec<f64>>) -> Vec<f64> {
+    let n = a.len();
+    for _ in 0..60 {
+        let mut off = 0.0;
+        let mut diag = 0.0;
+        for i in 0..n {
+            for j in 0..n {
+                if i != j {
+                    off += a[i][j] * a[i][j];
+                } else {
+                    diag += a[i][j] * a[i][j];
+                }
+            }
+        }
+        if off <= 1e-28 * diag.max(1e-300) {
+            break;
+        }
+        for p in 0..n {
+            for q in p + 1..n {
+                if a[p][q] == 0.0 {
+                    continue;
+                }
+                let th = 0.5 * (2.0 * a[p][q]).atan2(a[q][q] - a[p][p]);
+                let (c, s) = (th.cos(), th.sin());
+                for k in 0..n {
+                    let (x, y) = (a[k][p], a[k][q]);
+                    a[k][p] = c * x - s * y;
+                    a[k][q] = s * x + c * y;
+                }
+                for k in 0..n {
+                    let (x, y) = (a[p][k], a[q][k]);
+                    a[p][k] = c * x - s * y;
+                    a[q][k] = s * x + c * y;
+                }
+            }
+        }
+    }
+    let mut e: Vec<f64> = (0..n).map(|i| a[i][i]).collect();
+    e.sort_by(|x, y| y.partial_cmp(x).unwrap_or(std::cmp::Ordering::Equal));
+    e
+}
+
+/// Observation for the evidence (never part of a verdict): over all unfoldings of `x` (row-major,
+/// `shape`), the smallest relative gap 1 - s2/s1 between the two leading singular values and the
+/// smallest relative gap between any two neighbouring singular values above 1e-3 * s1 (f64 Gram
+/// matrix of the short side + Jacobi).
+fn closest_singular_values(x: &[f32], shape: &[usize]) -> (f64, f64) {
+    let (mut lead, mut any) = (f64::INFINITY, f64::INFINITY);
+    for split in 1..shape.len() {
+        let l: usize = shape[..split].iter().product();
+        let rr: usize = shape[split..].iter().product();
+        let m = l.min(rr);
+        if m < 2 || m > 32 {
+            continue;
+        }
+        let mut g = vec![vec![0f64; m]; m];
+        for i in 0..m {
+            for j in i..m {
+                let mut acc = 0.0;
+                if l <= rr {
+                    for c in 0..rr {
+                        acc += x[i * rr + c] as f64 * x[j * rr + c] as f64;
+                    }
+                } else {
+                    for row in 0..l {
+                        acc += x[row * rr + i] as f64 * x[row * rr + j] as f64;
+                    }
+                }
+                g[i][j] = acc;
+                g[j][i] = acc;
+            }
+        }
+        let sv: Vec<f64> = sym_eigenvalues(g).into_iter().map(|e| e.max(0.0).sqrt()).collect();
+        if sv[0] <= 0.0 {
+            continue;
+        }
+        lead = lead.min(1.0 - sv[1] / sv[0]);
+        for w in sv.windows(2) {
+            if w[1] > 1e-3 * sv[0] {
+                any = any.min(1.0 - w[1] / w[0]);
+            }
+        }
+    }
+    (lead, any)
+}
+
+fn part_ttspec(case_seed: u64, r: &mut Report) {
+    let mut rng = Rng::new(case_seed);
+    let replay = json!({"part": "ttspec", "case_seed": case_seed});
+    let high = rng.chance(2, 3);
+    let preset = if high { "high_accuracy" } else { "for_dim" };
+    let bound = if high { 0.001f64 } else { 0.01f64 };
+    // family -> group (the group is part of the signature: the three groups fail for different reasons)
+    const FAMILIES: [(&str, &str); 9] = [
+        ("dense-uniform", "dense-full-rank"),
+        ("dense-gaussian", "dense-full-rank"),
+        ("geometric-spectrum", "clustered-spectrum"),
+        ("close-leading-pair", "clustered-spectrum"),
+        ("evenly-spaced-spectrum", "clustered-spectrum"),
+        ("two-clusters", "clustered-spectrum"),
+        ("spikes", "degenerate-spectrum"),
+        ("equal-singular-values", "degenerate-spectrum"),
+        ("signs", "degenerate-spectrum"),
+    ];
+    let fi = rng.weighted(&[14, 14, 13, 13, 10, 10, 10, 10, 6]);
+    let (family, group) = FAMILIES[fi];
+    let dense = fi <= 1 || fi == 8;
+    // lengths: the rank cap must not be what limits accuracy (capped results are inconclusive, so a
+    // length that is always capped would only waste the budget)
+    let dim = if dense {
+        if high { *rng.pick(&TTSPEC_DIMS_FREE) } else { *rng.pick(&TTSPEC_DIMS_FREE[..6]) }
+    } else if fi == 6 {
+        match rng.below(4) {
+            0 => *rng.pick(&TTSPEC_DIMS_SPIKES),
+            1 => *rng.pick(&TTSPEC_DIMS_RANKED),
+            _ => *rng.pick(&TTSPEC_DIMS_FREE),
+        }
+    } else if high {
+        if rng.chance(1, 8) { *rng.pick(&TTSPEC_DIMS_RANKED) } else { *rng.pick(&TTSPEC_DIMS_FREE) }
+    } else {
+        *rng.pick(&TTSPEC_DIMS_FREE[..10])
+    };
+    let cfg = match if high { TTConfig::high_accuracy(dim) } else { TTConfig::for_dim(dim) } {
+        Ok(c) => c,
+        Err(e) => {
+            r.violation("tt:preset-rejects-dimension", format!("{}({}) failed: {}", preset, dim, e), replay);
+            return;
+        }
+    };
+    if cfg.shape.iter().product::<usize>() != dim || cfg.shape.len() < 2 {
+        r.inconclusive("ttspec: preset shape does not factor the length");
+        return;
+    }
+    let nm = cfg.shape.len();
+    let mut params = json!({});
+    let x64: Vec<f64> = match fi {
+        0 => (0..dim).map(|_| rng.f64_in(-1.0, 1.0)).collect(),
+        1 => (0..dim).map(|_| g_gauss(&mut rng)).collect(),
+        8 => (0..dim).map(|_| if rng.bool() { 1.0 } else { -1.0 }).collect(),
+        6 => {
+            // k spikes: the unfoldings are (partial) permutation matrices, singular values = |values|
+            let k = 1 + rng.below(4);
+            let equal = rng.chance(2, 3);
+            let mut x = vec![0f64; dim];
+            let mut at = Vec::new();
+            for _ in 0..k {
+                let p = rng.below(dim);
+                let val = if equal { 1.0 } else { *rng.pick(&[1.0, 0.5, 2.0, 0.75, 3.0]) } * if rng.bool() { 1.0 } else { -1.0 };
+                x[p] = val;
+                at.push(json!([p, val]));
+            }
+            params = json!({"spikes": at});
+            x
+        }
+        _ => {
+            let split = 1 + rng.below(nm - 1);
+            let l: usize = cfg.shape[..split].iter().product();
+            let rr: usize = cfg.shape[split..].iter().product();
+            let full = l.min(rr);
+            let rank = full.min(if high { 12 } else { 6 }).max(1);
+            let u = rng.unit_f64();
+            let (s, p): (Vec<f64>, Value) = match fi {
+                2 => {
+                    let q = 0.8 + 0.19 * u;
+                    ((0..rank).map(|i| q.powi(i as i32)).collect(), json!({"ratio": q}))
+                }
+                3 => {
+                    let rho = 0.8 + 0.199 * u;
+                    ((0..rank).map(|i| if i == 0 { 1.0 } else if i == 1 { rho } else { 0.3 / i as f64 }).collect(), json!({"s2/s1": rho}))
+                }
+                4 => {
+                    // gaps of 0.1 % .. 10 % of the leading value
+                    let eps = 10f64.powf(-1.0 - 2.0 * u);
+                    ((0..rank).map(|i| 1.0 - eps * i as f64).collect(), json!({"gap": eps}))
+                }
+                5 => {
+                    let rho = 0.85 + 0.14 * u;
+                    ((0..rank).map(|i| if i < rank / 2 { rho.powi(i as i32) } else { 0.2 * rho.powi(i as i32) }).collect(), json!({"ratio": rho}))
+                }
+                _ => {
+                    // exactly equal, or equal up to 1e-7 .. 1e-3
+                    let eps = if rng.bool() { 0.0 } else { 10f64.powf(-3.0 - 4.0 * u) };
+                    let rank = if rng.bool() { rank.min(2 + rng.below(3)) } else { rank };
+                    ((0..rank).map(|i| 1.0 - eps * i as f64).collect(), json!({"gap": eps}))
+                }
+            };
+            params = json!({"unfolding": [l, rr], "prescribed_singular_values": s.len(), "spectrum": p});
+            vector_with_spectrum(&mut rng, &cfg.shape, split, &s)
+        }
+    };
+    let v: Vec<f32> = x64.iter().map(|&x| x as f32).collect();
+    let vn = v.iter().map(|&x| (x as f64) * (x as f64)).sum::<f64>().sqrt();
+    if !(vn > 0.0) || !vn.is_finite() {
+        r.inconclusive("ttspec: generated zero vector");
+        return;
+    }
+    let shown = if dim <= 64 { format!(", input {:?}", v) } else { String::new() };
+    let ctx = format!("{} ({}) of length {} shape {:?} {}, preset {} (max_rank {}, tol {}){}", family, group, dim, cfg.shape, params, preset, cfg.max_rank, cfg.tolerance, shown);
+    let (res, _) = measured(|| tt_decompose(&v, &cfg).map(|tt| (tt_reconstruct(&tt), tt.ranks.clone())));
+    let (rec, ranks) = match res {
+        Err(p) => {
+            r.violation(format!("tt:panic:{}", first_line(&p)), format!("{}: {}", ctx, p), replay);
+            return;
+        }
+        Ok(Err(e)) => {
+            r.count(&format!("ttspec:rejected[{}:{}]", preset, family), 1);
+            r.violation(format!("tt:valid-input-rejected:{}", group), format!("tt_decompose failed on a finite non-zero vector: {}: {}", ctx, e), replay);
+            return;
+        }
+        Ok(Ok(x)) => x,
+    };
+    if rec.len() != v.len() {
+        r.violation("tt:reconstruct-length", format!("{}: reconstructed to {} elements", ctx, rec.len()), replay);
+        return;
+    }
+    if ranks.iter().copied().max().unwrap_or(1) >= cfg.max_rank {
+        // no bound is documented when the rank cap limits the approximation
+        r.count("ttspec_rank_capped", 1);
+        r.inconclusive("ttspec: returned ranks reach max_rank (no documented bound)");
+        return;
+    }
+    let en = v.iter().zip(&rec).map(|(&a, &b)| (a as f64 - b as f64).powi(2)).sum::<f64>().sqrt();
+    let rel = en / vn;
+    // what was fed (evidence only): how close the singular values of the input's unfoldings are
+    let (lead_gap, any_gap) = closest_singular_values(&v, &cfg.shape);
+    r.count(&format!("ttspec[{}:{}]", preset, family), 1);
+    r.count(&format!("ttspec:judged[{}]", group), 1);
+    if lead_gap <= 0.10 {
+        r.count("ttspec:judged-with-leading-singular-values-within-10%", 1);
+    }
+    if any_gap <= 0.05 {
+        r.count("ttspec:judged-with-neighbouring-singular-values-within-5%", 1);
+    }
+    if lead_gap <= 1e-4 {
+        r.count("ttspec:judged-with-leading-singular-values-within-0.01%", 1);
+    }
+    if ranks.iter().copied().max().unwrap_or(1) >= 4 {
+        r.count("ttspec:judged-with-returned-rank>=4", 1);
+    }
+    r.count_max(&format!("max:ttspec_rel_error_ppm[{}]", group), (rel * 1e6).min(1e12) as u64);
+    if !(rel <= bound) {
+        r.count(&format!("ttspec:above-bound[{}:{}]", preset, family), 1);
+        r.violation(
+            format!("tt:error-above-documented-bound:{}:{}", preset, group),
+            format!("{}: returned ranks {:?} (below the cap) but relative L2 error {:.5} > {} (closest leading singular values of an unfolding differ by {:.2e} relative)", ctx, ranks, rel, bound, lead_gap),
+            replay,
+        );
+        return;
+    }
+    r.eval(hash_str(&bits32(&v[..v.len().min(64)])) ^ hash_str(preset) ^ dim as u64, true);
+    if r.want_sample() && rng.chance(1, 8) {
+        r.sample(json!({"part": "ttspec", "family": family, "group": group, "dim": dim, "shape": cfg.shape, "preset": preset, "params": params, "returned_ranks": ranks, "relative_l2_error": rel, "smallest_leading_gap_of_an_unfolding": lead_gap}));
     }
 }
 
@@ -3679,6 +4014,7 @@ const PARTS: &[PartSpec] = &[
     PartSpec { name: "frame", evals_counter: "evals:frame", quick: 13200, thorough: 660000, budget_q: 15, budget_t: 180, floor: 1_000, garbage: false, chunk: 0 },
     PartSpec { name: "tcpcomp", evals_counter: "evals:tcpcomp", quick: 1600, thorough: 16000, budget_q: 10, budget_t: 120, floor: 100, garbage: false, chunk: 0 },
     PartSpec { name: "tt", evals_counter: "evals:tt", quick: 1500, thorough: 40000, budget_q: 15, budget_t: 180, floor: 60, garbage: false, chunk: 0 },
+    PartSpec { name: "ttspec", evals_counter: "evals:ttspec", quick: 4000, thorough: 150000, budget_q: 12, budget_t: 240, floor: 300, garbage: false, chunk: 0 },
     PartSpec { name: "validate", evals_counter: "evals:validate", quick: 2850, thorough: 114_000, budget_q: 8, budget_t: 90, floor: 300, garbage: false, chunk: 0 },
     PartSpec { name: "g-ids", evals_counter: "evals:g-ids", quick: 2500, thorough: 80000, budget_q: 25, budget_t: 400, floor: 60, garbage: true, chunk: 250 },
     PartSpec { name: "g-rle", evals_counter: "evals:g-rle", quick: 1200, thorough: 40000, budget_q: 25, budget_t: 400, floor: 40, garbage: true, chunk: 100 },
@@ -3729,6 +4065,7 @@ fn run_roundtrip_case_inner(part: &str, i: u64, s: u64, thorough: bool, dir: &Pa
         "frame" => part_frame(i, s, r),
         "tcpcomp" => part_tcpcomp(i, s, thorough, r),
         "tt" => part_tt(s, r),
+        "ttspec" => part_ttspec(s, r),
         "validate" => part_validate(i, s, r),
         _ => r.inconclusive("unknown part"),
     }
@@ -4013,6 +4350,16 @@ fn main() {
             floors.push((ps.evals_counter, ps.floor));
             total.merge(rep);
         }
+        // the spectrum part must have judged every input group, and inputs whose singular values really are close
+        if PARTS.iter().any(|p| p.name == "ttspec" && selected(&filter, p)) {
+            floors.push(("ttspec:judged[dense-full-rank]", 100));
+            floors.push(("ttspec:judged[clustered-spectrum]", 150));
+            floors.push(("ttspec:judged[degenerate-spectrum]", 80));
+            floors.push(("ttspec:judged-with-leading-singular-values-within-10%", 200));
+            floors.push(("ttspec:judged-with-neighbouring-singular-values-within-5%", 200));
+            floors.push(("ttspec:judged-with-leading-singular-values-within-0.01%", 40));
+            floors.push(("ttspec:judged-with-returned-rank>=4", 200));
+        }
         // derived coverage counters of the frame part
         if PARTS.iter().any(|p| p.name == "frame" && selected(&filter, p)) {
             let variants = total.counters.keys().filter(|k| k.starts_with("msg[")).count() as u64;
@@ -4114,12 +4461,13 @@ fn main() {
     }
     let meta = Meta {
         property: "C20",
-        rule: "round trip: one evaluation = one generated value (id list / run-length data / sparse vector / snapshot container + vector field / log of 1-30 records / network message through one codec configuration / byte buffer / low-TT-rank vector) encoded and decoded by the real code and compared NaN-aware and map-order-free; distinct by hash of the encoding; non-trivial if the value is non-empty (>= 2 ids, >= 2 run elements, >= 1 non-zero, accepted by the encoder). garbage: one evaluation = one valid encoding together with all its hostile variants (every truncation and single-bit flip when <= 40 bytes, else a sample; random strings; overwrites; hostile length prefixes), each fed to the real decoder under the counting allocator; distinct by hash of the inputs; per-input counts are in '<part>:inputs'. hostile (g-hostile, g-hostfile): one evaluation = 1-4 snapshot fields (sparse / tensor-train / run-length / id list) built by the crate's own encoders from values that break the decoder's preconditions (unsorted, duplicate, out-of-range and >32-bit positions, mismatched counts, extreme dimensions, cores that do not chain) plus honest controls, decoded as built, after a trip through the snapshot container, as a SparseVector wire value (alone, in a sequence, inside a RequestVote frame) and - g-hostfile - from a snapshot file through TensorStore::load_snapshot_compressed; verdict per decode: Err or a valid value (declared dimension, type invariants), well-defined values (controls, pair sets in any order, paired runs, id lists) exact; what was fed is counted per family in '<part>:sparse[...]', '<part>:tt[...]', '<part>:wire:sparse[...]'.",
+        rule: "round trip: one evaluation = one generated value (id list / run-length data / sparse vector / snapshot container + vector field / log of 1-30 records / network message through one codec configuration / byte buffer / low-TT-rank vector / vector with a full, clustered or degenerate spectrum at its unfoldings (ttspec: counted per preset and family in 'ttspec[...]', per group in 'ttspec:judged[...]', with the measured closeness of the singular values in 'ttspec:judged-with-...')) encoded and decoded by the real code and compared NaN-aware and map-order-free; distinct by hash of the encoding; non-trivial if the value is non-empty (>= 2 ids, >= 2 run elements, >= 1 non-zero, accepted by the encoder). garbage: one evaluation = one valid encoding together with all its hostile variants (every truncation and single-bit flip when <= 40 bytes, else a sample; random strings; overwrites; hostile length prefixes), each fed to the real decoder under the counting allocator; distinct by hash of the inputs; per-input counts are in '<part>:inputs'. hostile (g-hostile, g-hostfile): one evaluation = 1-4 snapshot fields (sparse / tensor-train / run-length / id list) built by the crate's own encoders from values that break the decoder's preconditions (unsorted, duplicate, out-of-range and >32-bit positions, mismatched counts, extreme dimensions, cores that do not chain) plus honest controls, decoded as built, after a trip through the snapshot container, as a SparseVector wire value (alone, in a sequence, inside a RequestVote frame) and - g-hostfile - from a snapshot file through TensorStore::load_snapshot_compressed; verdict per decode: Err or a valid value (declared dimension, type invariants), well-defined values (controls, pair sets in any order, paired runs, id lists) exact; what was fed is counted per family in '<part>:sparse[...]', '<part>:tt[...]', '<part>:wire:sparse[...]'.",
         assumptions: vec![
             "zeros of a dense vector are 'absence' for SparseVector: the sign of a zero is not required to survive; every non-zero element must come back bit for bit".into(),
             "vector fields of the quantising snapshot format are compared by value (an id list passes through integers)".into(),
             "compress_ints and rle_encode are not called by any persistence path of the store (only rle_decode is), so compress_ints' f32 fallback is not judged".into(),
             "tensor-train: bound = relative L2 error 1% (for_dim) / 0.1% (high_accuracy) as documented in tensor_compress/src/lib.rs and docs/book/src/architecture/tensor-compress.md; only inputs built with TT-rank <= max_rank/2; results whose ranks reach max_rank are inconclusive".into(),
+            "tensor-train, part ttspec: the same documented bounds are demanded of every finite non-zero vector whose returned ranks stay below max_rank (the statement's 'every lossy encoding reconstructs within its documented error bound' names no exception for close or equal singular values); inputs are generated in f64 and rounded to f32 once, the error is measured against that f32 input; the three input groups carry their own signatures (dense-full-rank, clustered-spectrum: gaps >= 0.1 %; degenerate-spectrum: spikes, +-1 vectors, gaps 0..0.1 %) because they fail for different reasons; the spectrum measured for the evidence (f64 Gram matrix + Jacobi) never enters a verdict".into(),
             "allocation ceilings: max_frame_length (v1) / max(max_frame_length, MAX_DECOMPRESSED_SIZE) (v2) + 256*input + 64 KiB for frames; MAX_DECOMPRESSED_SIZE for decompress; 64*file_length + 64 KiB for log replay; 256*input + 4 MiB (serde pre-allocates at most 1 MiB worth of elements for an untrusted length, up to 2.2 MB for a HashMap) + 64 KiB for bitcode decoders without a declared limit, and the same 4 MiB on top of every ceiling that includes a bitcode decode; inherently expansive decoders (run lengths, sparse->dense, tensor-train) are only called when the element count they claim is small and are judged on panics".into(),
             "with record checksums on, replay of a corrupted log must return Err or a prefix of the appended records (a CRC collision, 2^-32 per record, would be a false alarm)".into(),
             "the harness profile has overflow-checks and debug-assertions on: an arithmetic-overflow panic reported here wraps silently in a default release build".into(),
